@@ -184,8 +184,25 @@ def comm(A, B):
 # ----------------------------------------------------------------------------------------------------------------
 
 def build_hamiltonian(spec, qp):
+    if spec["method"] != "openfermion":
+        return _build_hamiltonian(spec, qp, None)
+    # the openfermion back-end writes molecule_*.hdf5 into `outpath`: keep it inside the git-ignored scratch area and remove it
+    import os
+    import shutil
+
+    out = os.path.join(os.path.dirname(os.path.dirname(os.path.dirname(os.path.abspath(__file__)))), "scratch", f"c62_{os.getpid()}")
+    os.makedirs(out, exist_ok=True)
+    try:
+        return _build_hamiltonian(spec, qp, out)
+    finally:
+        shutil.rmtree(out, ignore_errors=True)
+
+
+def _build_hamiltonian(spec, qp, outpath):
     coords_ang = np.array(spec["geom"], dtype=float)
     kw = {"method": spec["method"], "mapping": spec["mapping"]}
+    if outpath is not None:
+        kw["outpath"] = outpath
     if spec["active"]:
         kw["active_electrons"], kw["active_orbitals"] = spec["active"]
     if spec["wires"] is not None:
